@@ -247,7 +247,11 @@ fn run_program(rng: &mut Rng, allow_signing: bool) -> Outcome {
     };
     let mut buf_a = vec![0x55u8; buf_len];
     let mut buf_b: Vec<u8>;
-    let init_limit = if rng.chance(1, 3) { rng.range(12, buf_len + 20) } else { buf_len };
+    // Large-buffer programs often begin with one padding record that puts the
+    // names that follow right around offset 16384, the first offset a 14-bit
+    // compression pointer cannot express.
+    let mut pad: Option<usize> = if buf_len == 70_000 && rng.chance(2, 3) { Some(16384 - if rng.chance(1, 3) { rng.below(4) } else { rng.below(90) }) } else { None };
+    let init_limit = if pad.is_none() && rng.chance(1, 3) { rng.range(12, buf_len + 20) } else { buf_len };
     let mut m = Model {
         id: 0,
         qr: false,
@@ -288,7 +292,7 @@ fn run_program(rng: &mut Rng, allow_signing: bool) -> Outcome {
         if m.mode != Mode::Disabled {
             m.ever_not_disabled = true;
         }
-        let op = rng.below(100);
+        let op = if pad.is_some() { 18 } else { rng.below(100) };
         match op {
             0..=7 => {
                 // header setters
@@ -366,17 +370,23 @@ fn run_program(rng: &mut Rng, allow_signing: bool) -> Outcome {
                     5 | 6 => 2,
                     _ => 3,
                 };
-                let (class, rtype) = *rng.pick(&REC_TYPES);
-                let n_rdatas = if rng.chance(1, 3) { rng.range(1, 4) } else { 1 };
-                let as_set = n_rdatas > 1 || rng.chance(1, 4);
-                let owner = pool_name(rng);
+                let padding = pad.take();
+                let section = if padding.is_some() { 1u8 } else { section };
+                let (class, rtype) = if padding.is_some() { (C_IN, 99) } else { *rng.pick(&REC_TYPES) };
+                let n_rdatas = if padding.is_none() && rng.chance(1, 3) { rng.range(1, 4) } else { 1 };
+                let as_set = n_rdatas > 1 || (padding.is_none() && rng.chance(1, 4));
+                let owner = if padding.is_some() { RName::root() } else { pool_name(rng) };
                 let ttl = match rng.below(6) {
                     0 => 0,
                     1 => 0x7fff_ffff,
                     2 => 0x8000_0001,
                     _ => rng.u32() >> 8,
                 };
-                let rdatas: Vec<Vec<u8>> = (0..n_rdatas).map(|_| gen_rdata(rng, class, rtype)).collect();
+                let rdatas: Vec<Vec<u8>> = match padding {
+                    // header 12 + root owner 1 + fixed fields 10 + RDATA = offset of the next name
+                    Some(target) => vec![vec![0u8; target - 23]],
+                    None => (0..n_rdatas).map(|_| gen_rdata(rng, class, rtype)).collect(),
+                };
                 // hint obeying the API contract
                 let mut hint = Hint::None;
                 let mut hint_label = "None";
